@@ -208,6 +208,7 @@ type SiteDB struct {
 	EntryMay  map[*types.Func]map[string]bool
 	Exits     map[*FuncInfo][]*ExitRec
 	Fields    []*FieldAccess
+	Exprs     map[ast.Node]*HState // state before index / slice expressions
 	Blocking  []*Site // channel operations, select statements, go statements (Callee: "<-chan", "chan<-", "select", "go")
 	LockAcqs  []*LockAcq
 }
@@ -515,6 +516,7 @@ func buildSiteDB(l *Loaded, pkgs ...string) *SiteDB {
 		db.Fields = nil
 		db.Blocking = nil
 		db.LockAcqs = nil
+		db.Exprs = map[ast.Node]*HState{}
 		for _, fi := range funcs {
 			if fi.Decl.Body != nil {
 				db.analyse(fi)
@@ -980,6 +982,12 @@ func (db *SiteDB) analyse(fi *FuncInfo) {
 		}
 		inspectNoLit(n, func(m ast.Node) {
 			switch v := m.(type) {
+			case *ast.SliceExpr, *ast.IndexExpr:
+				if prev, ok := db.Exprs[v]; ok {
+					db.Exprs[v] = hJoin(prev, snap)
+				} else {
+					db.Exprs[v] = snap
+				}
 			case *ast.UnaryExpr:
 				if v.Op == token.ARROW {
 					db.Blocking = append(db.Blocking, &Site{Node: v, Callee: "<-chan", Fn: fc.Fn, Root: fi, St: snap, Ctx: chain})
